@@ -74,6 +74,23 @@ def stream_or_elems(crate, t):
     if s is not None:
         return s
     base = _strip_refs(t)
+    if base[0] == "call" and isinstance(base[1], str):
+        # vec![x; n]
+        if base[1].endswith("vec::from_elem") and len(base[2]) == 2:
+            return [seg(base[2][1], base[2][0])]
+        # v[a..], v[a..b], v[..b]
+        if base[1].split("::")[-1] in ("index", "index_mut") and len(base[2]) == 2 and base[2][1][0] == "agg":
+            r = base[2][1]
+            x = _strip_refs(base[2][0])
+            if r[1].endswith("ops::RangeFrom") and len(r[2]) == 1:
+                return [seg(("op", "Sub", ("len", x), r[2][0]), ("index", x, ("op", "Add", r[2][0], IX)))]
+            if r[1].endswith("ops::Range") and len(r[2]) == 2:
+                return [seg(("op", "Sub", r[2][1], r[2][0]), ("index", x, ("op", "Add", r[2][0], IX)))]
+            if r[1].endswith("ops::RangeTo") and len(r[2]) == 1:
+                return [seg(r[2][0], ("index", x, IX))]
+        # Vec::from(slice) / slice.to_vec() / to_owned(): the same elements
+        if base[1].split("::")[-1] in ("from", "to_vec", "to_owned", "into") and len(base[2]) == 1:
+            return stream_or_elems(crate, base[2][0])
     if base[0] in ("call", "field", "param", "index"):
         return [seg(("len", base), ("index", base, IX))]
     return None
@@ -182,22 +199,26 @@ def norm_seg(g, roles=None):
     return out
 
 
-def vector_segments(crate, f, ls, is_target, conds_of):
+def vector_segments(crate, f, ls, is_target, conds_of, scope_loop=None):
     """segments appended to the vector selected by is_target(base term of the &mut Vec argument), in program order.
     ls: LoopSummary whose sink reports push/extend/collect as "push"/"extend"; conds_of(block) -> DNF of path conditions.
     Returns (segments, problems)."""
     segs = []
     problems = []
     seen_init = False
-    for e in ls.events:
-        if e["sink"] not in ("push", "extend"):
+    events = ls.events
+    if scope_loop is not None:
+        # the vector lives inside one iteration of an enclosing loop: that loop is the top level here
+        events = [dict(e, loop=None) if e["loop"] == scope_loop else e for e in ls.events]
+    for e in events:
+        if e["sink"] not in ("push", "extend", "extend_from_slice", "resize"):
             continue
         base = _strip_refs(e["args"][0])
         if not is_target(base):
             continue
         if not seen_init:
             seen_init = True
-            # initial contents: collect(stream) or an empty constructor
+            # initial contents: collect(stream), a copy of a slice, or an empty constructor
             b0 = base
             if b0[0] == "call" and isinstance(b0[1], str) and (b0[1].endswith("Iterator::collect") or b0[1].endswith("::from_iter")):
                 s = parse_stream(crate, b0[2][0])
@@ -205,8 +226,40 @@ def vector_segments(crate, f, ls, is_target, conds_of):
                     problems.append("initial collect() over an iterator that is not understood")
                 else:
                     segs.extend(s)
+            elif b0[0] == "call" and isinstance(b0[1], str) and b0[1].split("::")[-1] in ("from", "to_vec", "to_owned", "into") and len(b0[2]) == 1:
+                s = stream_or_elems(crate, b0)
+                if s is None:
+                    problems.append("initial contents not understood")
+                else:
+                    segs.extend(s)
+            elif b0[0] == "call" and isinstance(b0[1], str) and b0[1].split("::")[-1] in ("new", "with_capacity"):
+                pass
+            elif b0[0] == "call" and isinstance(b0[1], str) and b0[1].endswith("vec::from_elem"):
+                segs.extend(stream_or_elems(crate, b0))
+        if e["sink"] == "extend_from_slice" and e["loop"] is None:
+            s = stream_or_elems(crate, e["args"][1])
+            if s is None:
+                problems.append("extend_from_slice() of something not understood")
+            else:
+                segs.extend(s)
+            continue
+        if e["sink"] == "resize" and e["loop"] is None:
+            # v.resize(n, x): n - len(v) copies of x; len(v) is the sum of what was appended so far
+            total = ("const", 0)
+            for g in segs:
+                if "inner" in g or g["cond"] is not None:
+                    total = None
+                    break
+                total = ("op", "Add", total, g["count"])
+            if total is None:
+                problems.append("resize() after a filtered or nested segment")
+                continue
+            newlen = T.map_term(e["args"][1], lambda y: total if (y[0] == "call" and isinstance(y[1], str) and y[1].endswith("::len")
+                                                                  and len(y[2]) == 1 and _strip_refs(y[2][0]) == base) else y)
+            segs.append(seg(("op", "Sub", newlen, total), e["args"][2]))
+            continue
         if e["loop"] is not None:
-            group = [x for x in ls.events if x["loop"] == e["loop"] and x["sink"] in ("push", "extend") and is_target(_strip_refs(x["args"][0]))]
+            group = [x for x in events if x["loop"] == e["loop"] and x["sink"] in ("push", "extend") and is_target(_strip_refs(x["args"][0]))]
             if not (len(group) == 1 and e["sink"] == "push"):
                 # several appends per iteration: one nested segment for the loop
                 if group[0] is not e:
@@ -236,7 +289,7 @@ def vector_segments(crate, f, ls, is_target, conds_of):
                              "cond": subst(st[0]["cond"], IX, IXO) if st[0]["cond"] is not None else None, "inner": inner})
                 continue
         if e["sink"] == "extend":
-            s = parse_stream(crate, e["args"][1])
+            s = stream_or_elems(crate, e["args"][1])
             if s is None or e["loop"] is not None:
                 problems.append("extend() with an iterator that is not understood")
             else:
@@ -351,11 +404,11 @@ def parse_first(crate, t):
     return None
 
 
-def segments_of_value(crate, f, ls, base, conds_of):
+def segments_of_value(crate, f, ls, base, conds_of, scope_loop=None):
     """segments of a Vec-valued term of function f (ls must report push/extend): collect(stream) or a filled vector"""
     base = _strip_refs(base)
     if base[0] == "call" and isinstance(base[1], str) and (base[1].endswith("Iterator::collect") or base[1].endswith("::from_iter")) \
             and not any(e["sink"] in ("push", "extend") and _strip_refs(e["args"][0]) == base for e in ls.events):
         s = parse_stream(crate, base[2][0])
         return (s, []) if s is not None else ([], ["collect() over an iterator that is not understood"])
-    return vector_segments(crate, f, ls, lambda b: b == base, conds_of)
+    return vector_segments(crate, f, ls, lambda b: b == base, conds_of, scope_loop)
